@@ -23,6 +23,7 @@ import (
 //	append <src> <cfg>   -> ok <out> | err already | err other
 //	stripto <file> <old dst> / stripin <file>            strip onto an existing destination / in place
 //	appendto <src> <cfg> <old dst> / appendin <src> <cfg>  embed onto an existing destination / in place
+//	appendlink|appendhard|appendrel <src> <cfg>          destination is the source under another name
 func init() {
 	var dir string
 	path := func(name string) string {
@@ -116,6 +117,28 @@ func init() {
 				b, err := os.ReadFile(q)
 				must(err)
 				return "ok " + hexTok(b)
+			case "appendlink", "appendhard", "appendrel": // destination = the same file under another NAME
+				p := path("bin")
+				must(os.WriteFile(p, unhexTok(f[1]), 0o600))
+				q := path("alias")
+				switch f[0] {
+				case "appendlink":
+					must(os.Symlink(p, q))
+				case "appendhard":
+					must(os.Link(p, q))
+				default: // relative spelling of the same path
+					wd, err := os.Getwd()
+					must(err)
+					rel, err := filepath.Rel(wd, p)
+					must(err)
+					q = rel
+				}
+				if err := embed.AppendConfig(p, q, unhexTok(f[2])); err != nil {
+					return classify(err)
+				}
+				b, err := os.ReadFile(p) // the file itself, whatever name was used to write it
+				must(err)
+				return "ok " + hexTok(b)
 			case "has":
 				p := path("bin")
 				must(os.WriteFile(p, unhexTok(f[1]), 0o600))
@@ -152,6 +175,11 @@ func init() {
 				fmt.Fprintf(w, "read %s\n", hexTok(file))
 				fmt.Fprintf(w, "stripto %s %s\n", hexTok(file), hexTok(r.bytes(len(file)+40)))
 				fmt.Fprintf(w, "stripin %s\n", hexTok(file))
+			}
+			// always: embedding onto the same file reached through another name
+			for _, op := range []string{"appendlink", "appendhard", "appendrel"} {
+				fmt.Fprintf(w, "%s %s %s\n", op, hexTok(r.bytes(40)), hexTok(r.bytes(33)))
+				fmt.Fprintf(w, "%s %s %s\n", op, hexTok(r.bytes(5000)), hexTok(r.bytes(7)))
 			}
 			for i := 0; i < n; i++ {
 				body := r.bytes(r.pick(0, 0, 1, 7, 8, 15, 16, 17, 31, 32, 33, 40, 64, 100, 255, 300))
